@@ -211,6 +211,21 @@ def campaign(c):
                     f = kv(parse(c, kind, b))
                     expect(c, fn, f.get(fld[0]) == str(sel) and f.get(fld[1]) == sh_hex(data) and f.get('rest') == '-', '%s with selector %d and content %s: framing wrong' % (fn, sel, [p.hex() for p in parts]), rep)
         c.case(('selector', sel), dict(kind='selector-grid', selector=sel) if sel % 32 == 20 else None)
+    # typed values as content (an integer literal is eight bytes, a typed constant one or two, an address four): the body is
+    # those bytes at that width, for every selector
+    TYPED = [(['-=u64:1'], (1).to_bytes(8, 'big')), (['-=u64:0'], bytes(8)), (['-=u8:1'], b'\x01'), (['-=u16:1'], b'\x00\x01'), (['-=u32:1'], b'\x00\x00\x00\x01'), (['-=ip4:1'], b'\x00\x00\x00\x01'),
+             (['-=str:0000000000000001'], (1).to_bytes(8, 'big')), (['-=u64:1', '-=u8:2'], (1).to_bytes(8, 'big') + b'\x02'), (['-=u64:18446744073709551615'], b'\xff' * 8)]
+    for sel in list(range(256)) + [x for x in named16 if x > 255]:
+        for targs, data in TYPED:
+            for fn, kind, lead, fld in (('tls::extension', 'extension', ['-=u16:%d' % sel], ('ext', 'data')), ('tls::message', 'tlsrecord', ['content=u8:%d' % (sel % 256)], ('content', 'payload')),
+                                        ('dhcp::option', 'dhcpopt', ['-=u8:%d' % (sel % 256)], ('opt', 'data')), ('dns::answer', 'rr:3', ['-=' + s(b'\x01a\x00'), 'atype=u16:%d' % sel], ('type', 'data'))):
+                if sel > 255 and fn in ('tls::message', 'dhcp::option'): continue
+                res, req = call_both(c, [[fn] + lead + targs])
+                b = val_bytes(res[0])
+                if b is not None:
+                    f = kv(parse(c, kind, b))
+                    expect(c, fn, f.get(fld[1]) == sh_hex(data) and f.get(fld[0]) == str(sel % 256 if fn in ('tls::message', 'dhcp::option') else sel) and f.get('rest') == '-',
+                           '%s with selector %d and typed content %s: the body is not those values at their widths (%s)' % (fn, sel, targs, f.get(fld[1])), dict(req=req))
     for sel in named16 + list(range(0, 64)):
         for parts in conts:
             data = b''.join(parts)
